@@ -99,16 +99,16 @@ def monC10 : ObsMonitor CObs C10St where
     | .ret a v e =>
       match opOf m a with
       | some .access =>
-        -- access_result
+        -- access_result: the error is `Canceled` of a cancelled caller, or a resolver's error, or the
+        -- result of the last callback, whose value was not invalidated before it returned (a
+        -- disjunction: the model does not restrict the error ids a callback may return)
         if m.accCur.any (·.1 == a) then none
-        else if e = 9 then (if m.cancelled.contains a then some m else none)
-        else if e = 1 ∨ e = 2 ∨ e = 3 then (if m.resVals.any (·.2 == e) then some m else none)
-        else
-          match m.accLast.find? (·.1 == a) with
-          | some p => if p.2.2.2 = e && !p.2.2.1 then some m else none
-          | none => none
+        else if (e == 9 && m.cancelled.contains a) || (e != 0 && m.resVals.any (·.2 == e)) ||
+            (match m.accLast.find? (·.1 == a) with
+             | some p => p.2.2.2 == e && !p.2.2.1
+             | none => false) then some m else none
       | some _ =>
-        if e = 9 then (if m.cancelled.contains a then some m else none)
+        if e == 9 && m.cancelled.contains a then some m
         else if !m.resVals.contains (v, e) then none
         else if e ≠ 0 then some m
         else
